@@ -79,7 +79,9 @@ def run_case(spec):
         return out
     try:
         s = sub.call()
-    except Exception as exc:
+    except BaseException as exc:
+        if isinstance(exc, (KeyboardInterrupt, SystemExit)):
+            raise
         out.label("exc:%s" % type(exc).__name__)  # C15's subject
         return out
     if not isinstance(s, np.ndarray) or s.shape != (sub.n,) or not np.all(np.isfinite(s)):
